@@ -4,6 +4,32 @@ use crate::rng::Rng;
 
 /// Rare size classes: a very long line, very many lines, a text beyond 2^16 bytes — the places
 /// where a narrow integer, a threshold or a chunked scan would show.
+/// `thorough`: also texts of up to 32 MiB (2^25) in the power-of-two class.
+pub fn gen_big_text_scaled(r: &mut Rng, thorough: bool) -> String {
+    if thorough && r.chance(1, 30) {
+        let e = ["\n", "\r\n", "\r"][r.below(3) as usize];
+        let k = r.range(24, 25);
+        let boundary = 1usize << k;
+        let mut text = String::with_capacity(boundary + 64);
+        while text.len() + 70 < boundary {
+            for _ in 0..r.below(60) {
+                text.push('y');
+            }
+            text.push_str(e);
+        }
+        let item = *r.pick(&["\r\n", "\r", "é", "\r\n\r\n"]);
+        let before = r.below(item.len() as u64 + 1) as usize;
+        while text.len() + before < boundary {
+            text.push('p');
+        }
+        text.push_str(item);
+        text.push_str("z = é");
+        text.push_str(e);
+        return text;
+    }
+    gen_big_text(r)
+}
+
 pub fn gen_big_text(r: &mut Rng) -> String {
     let mut text = String::new();
     if r.chance(1, 5) {
